@@ -9,6 +9,7 @@ import (
 	"time"
 
 	netty "github.com/go-netty/go-netty"
+	"github.com/go-netty/go-netty/utils"
 
 	"verif/mon"
 )
@@ -21,7 +22,8 @@ type Trial struct {
 	Plan   Plan
 	// StopAfter > 0: the collector closes the channel once that many messages were delivered.
 	StopAfter int
-	// ReadBuf is the size of the buffer the collector reads delivered messages with.
+	// ReadBuf is the size of the buffer the collector reads delivered messages with; -1 = the collector flattens the
+	// message with utils.ToBytes, the way the shipped format codecs consume a frame.
 	ReadBuf int
 	// Watchdog for the whole trial (default 20 s); expiry is inconclusive, never a verdict.
 	Watchdog time.Duration
@@ -121,6 +123,8 @@ func (c collector) HandleRead(ctx netty.InboundContext, message netty.Message) {
 	r, ok := message.(io.Reader)
 	if !ok {
 		m.Err = fmt.Errorf("harness: message of type %T is not an io.Reader", message)
+	} else if p.trial.ReadBuf == -1 {
+		m.Data, m.Err = utils.ToBytes(message)
 	} else {
 		m.Data, m.Err = readToEnd(r, p.trial.ReadBuf)
 	}
